@@ -204,7 +204,7 @@ pub fn header_variant(v: u32) -> (Vec<usize>, fn(&str) -> String) {
     }
     let n = HEADER.len();
     let canonical: Vec<usize> = (0..n).collect();
-    match v % 6 {
+    match v % 7 {
         0 => (canonical, same),
         1 => (canonical, upper),
         2 => (canonical, padded),
@@ -216,6 +216,14 @@ pub fn header_variant(v: u32) -> (Vec<usize>, fn(&str) -> String) {
             c.push(usize::MAX);
             c.extend(5..n);
             c.push(usize::MAX);
+            (c, same)
+        }
+        6 => {
+            // NOT layout-neutral (used by the determinism check only): the commission and memo
+            // columns appear twice; the repeated cells are filled with other values
+            let mut c = canonical.clone();
+            c.insert(2, 6 + 1000);
+            c.push(14 + 1000);
             (c, same)
         }
         _ => {
@@ -237,6 +245,8 @@ pub fn csv_text_variant(rows: &[Row], variant: u32) -> String {
                 extra += 1;
                 // the first unrecognised column has a blank header cell (e.g. a spreadsheet's index column)
                 if extra == 1 { String::new() } else { style(&format!("broker note {}", extra)) }
+            } else if c >= 1000 {
+                style(HEADER[c - 1000])
             } else {
                 style(HEADER[c])
             }
@@ -246,7 +256,20 @@ pub fn csv_text_variant(rows: &[Row], variant: u32) -> String {
     s.push('\n');
     for r in rows {
         let cells = row_cells(r);
-        let line: Vec<String> = cols.iter().map(|&c| if c == usize::MAX { "n/a 1,5".to_string() } else { cells[c].clone() }).map(|c| csv_cell(&c)).collect();
+        let line: Vec<String> = cols
+            .iter()
+            .map(|&c| {
+                if c == usize::MAX {
+                    "n/a 1,5".to_string()
+                } else if c >= 1000 {
+                    // the repeated column carries another value
+                    if c - 1000 == 6 { "7.77".to_string() } else { "other memo".to_string() }
+                } else {
+                    cells[c].clone()
+                }
+            })
+            .map(|c| csv_cell(&c))
+            .collect();
         s.push_str(&line.join(","));
         s.push('\n');
     }
